@@ -3,6 +3,7 @@ use std::io::{self, BufRead, Write};
 
 mod entry;
 mod heap;
+mod iso;
 mod json;
 mod life;
 mod modl;
@@ -24,6 +25,7 @@ fn main() {
         "entry" => entry::line,
         "roles" => entry::roles_line,
         "heap" => heap::line,
+        "iso" => iso::line,
         "life" => life::line,
         "orders" => orders::line,
         "mod" => modl::line,
